@@ -145,3 +145,24 @@ P("C20",
   level_note="Trusted: Coq kernel + vm_compute, Flocq, Go harness. Axioms: the standard library's classical reals and functional extensionality that Flocq's real-number layer uses (listed per theorem in the evidence). libm (sqrt cbrt exp log pow mod), strconv and koykov/clock are external: the engine is compared against the same libraries. Known findings: precision rounding with an inexact scaling product; roundPrec beyond the int64 range.",
   design_ref="5 C20", trusted_base=[KERNEL, VMODE, HARNESS, "Flocq 4 (IEEE754.BinarySingleNaN, Bits) as the definition of binary64 arithmetic", "modelled, not verified: Go's math.Pow10 tables (transcribed), strconv float formatting (bits recovered by ParseFloat), libm and koykov/clock (oracle = same library)"],
   assumptions=["Go's float64 arithmetic is IEEE-754 binary64 round-to-nearest-even", "time.Unix uses the process's local zone on both sides"])
+
+P("C06",
+  title="Concurrent renders and re-registrations are safe and atomic",
+  srcfacts=True, race=True,
+  technique="Rocq proof over all interleavings of an atomic-step model of renderers and writers (render = the version current at its own lookup); the atomicity and immutability assumptions re-checked as theorems over facts regenerated from /repo's source on every run (go/ast + go/types); schedule exploration of the real engine under the race detector",
+  level_text=("Theorems (Props/C06.v): for every schedule of lookups, node evaluations, finishes and re-registrations, a render returns exactly the version published by the last Set of its name before its own lookup (never a mixture, never older than a re-registration that had returned), and only versions actually published for that name. Theorems re-checked over source facts on every run: every *db method that reads/writes the indexes or slots holds the read/write lock (itself or through all its callers); no function outside the parser assigns through node/Tree/Tpl/mod/arg. "
+              "Each run builds the engine with -race and runs 12 renderers (pooled contexts, templates with loops, conditions, escaping, includes) against 4 writers re-registering versions, GOMAXPROCS 1/2/4/16 with injected yields: every output must be exactly one version's output and not older than what was published before its lookup."),
+  level_note="Partial by nature: data-race freedom and memory visibility are properties of the Go runtime and memory model; the theorem covers the locking protocol over all interleavings of atomic steps, the source-fact theorems tie the atomicity assumptions to the code, the race detector covers sampled schedules only. sync.RWMutex and sync.Pool semantics are assumed.",
+  design_ref="5 C06", trusted_base=[KERNEL, HARNESS, "harness/srcfacts.go (go/ast + go/types extractor of lock usage, tree writes)", "Go race detector (sampled schedules)", "modelled, not verified: sync.RWMutex, sync.Pool, the Go memory model"],
+  assumptions=["lookups and sets are atomic (re-checked from the source: db_methods_locked)", "parsed trees are immutable after Parse (re-checked from the source: render_path_readonly)"])
+
+P("C19",
+  title="Steady-state rendering performs no heap allocation",
+  srcfacts=True,
+  technique="Rocq proof of the no-growth property of the context's grow-only stores (second identical run after Reset takes no growth branch); field inventory of Ctx re-checked from the source on every run; testing.AllocsPerRun and store capacities measured on the real engine",
+  level_text=("Theorems (Props/C19.v): for every demand sequence and every store, after one run and a Reset the same run (and any run with smaller demands) takes no growth branch and leaves the capacity unchanged. Re-checked from the source on every run: every field of Ctx is classified (cleared by Reset / grow-only storage truncated by Reset / scratch overwritten before use). "
+              "Each run measures the repository's benchmark templates and generated compositions of all built-in constructs with a held, warmed context and buffer: capacities of the grow-only stores before and after the measurement must be equal and testing.AllocsPerRun must be 0; allocating templates are shrunk to a minimal one."),
+  level_note="Partial by nature: escape analysis, interface boxing and append's growth policy belong to the compiler and runtime; the theorem covers the slot/buffer-reuse logic only, the measurement covers sampled templates (data kinds whose generated inspectors do not allocate by themselves: no map-typed fields).",
+  design_ref="5 C19", trusted_base=[KERNEL, HARNESS, "testing.AllocsPerRun", "verif-tagged VerifCtxSlots hook"],
+  assumptions=["inspectors of the data do not allocate (slices and structs of koykov/inspector's testobj; maps excluded)"])
+PROPS["C05"]["srcfacts"] = True
